@@ -202,7 +202,7 @@ def run_tests(d):
     try:
         p = subprocess.run(["/venv/bin/python", "-m", "pytest", "-q", "-x", "-p", "no:cacheprovider", "--timeout=120", "test",
                             "--deselect", "test/test_array_function.py::test_count_nonzero"],
-                           cwd=d, env=env, capture_output=True, text=True, timeout=600)
+                           cwd=d, env=env, capture_output=True, text=True, errors="replace", timeout=600)
     except subprocess.TimeoutExpired:
         return False
     return p.returncode == 0
@@ -215,7 +215,7 @@ def run_checks(d, props, seed=0):
                    VERIF_SEED=str(seed), PYTHONDONTWRITEBYTECODE="1")
         try:
             p = subprocess.run([os.path.join(VERIF, "bin", "check"), pid, "--tier", "quick"], env=env, capture_output=True, text=True,
-                               timeout=1500)
+                               errors="replace", timeout=1500)
             lines = [ln for ln in p.stdout.splitlines() if ln.startswith("VIOLATION")]
             caught[pid] = {"rc": p.returncode, "violations": len(lines), "first": (lines[0][:160] if lines else ""),
                            "tail": p.stdout.strip().splitlines()[-1][:200] if p.stdout.strip() else p.stderr[-300:]}
@@ -227,6 +227,13 @@ def run_checks(d, props, seed=0):
 
 
 def one(args):
+    try:
+        return _one(args)
+    except Exception as exc:                      # keep the campaign going
+        return {"file": args[0], "idx": args[1], "line": args[2][0], "desc": args[2][5], "status": "tool_error", "error": repr(exc)[:300]}
+
+
+def _one(args):
     rel, idx, m, root, seed = args
     d = make_scratch(root)
     try:
